@@ -56,6 +56,10 @@ worktrees removed).  exit 1 = caught.
   single_key_ignores_missing    Key lookup of an absent key returns another entry                          exit 1
   score_parse_32bit             cursor score parsed with bitSize 32                                        exit 1 (min/max int64 scores)
  C24
+  seed C24-3 (phase 2 releases pubLock before HandlePublication(removal))                                        exit 1 (expiry:removal-broadcast-after-later-publication:
+                                the sweeper is parked inside its handler call, the model's next write of the channel is started concurrently; on HEAD it
+                                waits, on the seed its broadcast overtakes the removal; model: SplitDeliver / ExpiryHoldsPubLock, ExpireDeliver,
+                                HandlerInOffsetOrder, SubscriberConverges, WritersWaitForSweeper; order-cex.cfg must be refuted by TLC)
   seed C24-2 (h.nextKeyExpireCheck stored at the very end of the iteration with the phase-1 value)               exit 1 (expiry:sweep-idle: the next decoy key is
                                 published INSIDE the parked sweep's window; the forgotten deadline leaves the sweeper idle and the expired key is never
                                 removed; model: variable nkc, Arm(), invariant SweeperArmed)
@@ -83,6 +87,18 @@ def _exhaustive(c, cfgs, timeout=1500):
         r = c.tlc_exhaustive(SPEC, 'MapBroker', cfg, workers=WORKERS, timeout=timeout)
         c.log('TLC exhaustive %s: %d distinct / %d generated states, depth %d, %.0f s'
               % (cfg, r['distinct'], r['states'], r['depth'], r['wall_s']))
+
+
+def _order_counterexample(c):
+    """Sensitivity of the handler-order properties: the design that releases the publish lock before the sweeper's
+    HandlePublication call (ExpiryHoldsPubLock = FALSE) must be refuted by TLC (a later publication overtakes the removal)."""
+    r = c.tlc(SPEC, 'MapBroker', 'order-cex.cfg', workers=WORKERS, timeout=600, expect_violation=True)
+    err = r.get('error') or ''
+    if r['ok'] or not ('HandlerInOffsetOrder' in err or 'SubscriberConverges' in err or 'WritersWaitForSweeper' in err):
+        raise vf.Inconclusive('order-cex.cfg (sweeper releases pubLock before its handler call) is not refuted by the handler-order '
+                              'properties any more: %s' % (err or 'no error'))
+    c.log('TLC order-cex.cfg: counterexample as expected (%s)' % err[:90])
+    c.cov['order_counterexample'] = err[:120]
 
 
 def _simulate(c, cfg, n, depth=30):
@@ -241,7 +257,8 @@ def c21(c):
 
 def c24(c):
     quick = c.tier == 'quick'
-    _exhaustive(c, ['quick-time.cfg'] if quick else ['thorough-time.cfg', 'thorough-race.cfg'])
+    _exhaustive(c, ['quick-time.cfg', 'quick-order.cfg'] if quick else ['thorough-time.cfg', 'thorough-race.cfg', 'quick-order.cfg'])
+    _order_counterexample(c)
     binp = c.go_build('mapbroker')
     _expiry(c, binp, 160 if quick else 1200)
     _replay(c, binp, 100 if quick else 1000)
@@ -250,7 +267,10 @@ def c24(c):
     c.cov['rule'] = ('expiry: TLC -simulate of MapBrokerSim with Manual=TRUE; one broker per behaviour built without its cleanup goroutines, the harness '
                      'calls expireKeysIteration and parks it between phase 1 and phase 2 (the event-handler call for a decoy channel whose key expires '
                      'first), runs the model\'s operations in the window, then lets phase 2 finish; removal broadcasts, stream and state compared. '
-                     'non-trivial = behaviours with a write between the phases. replay: as C20, the sweeps are the broker\'s own')
+                     'non-trivial = behaviours with a write between the phases. broadcast-order probe: when the sweep removes keys and the model\'s '
+                     'next step is an applied write of the channel, the sweeper is parked inside its HandlePublication(removal) call and the write '
+                     'is started on another goroutine: it has to wait (counter order_probe_writer_waited...), and the handler must not see the '
+                     'later publication before the removal call returned. replay: as C20, the sweeps are the broker\'s own')
     c.assumptions += ASSUME
 
 
